@@ -30,7 +30,8 @@ deriving DecidableEq, Repr
 says about one measured row.  (The three `shares…` columns are recorded for information: a result that aliases its
 input would not by itself modify it.) -/
 def FeatRow.ok (r : FeatRow) : Bool :=
-  r.returned && (r.outKind == r.inKind) && r.writes.isEmpty && r.keysKept
+  r.returned && (r.outKind == r.inKind) && r.writes.isEmpty && r.keysKept &&
+    (r.feature != "no_op" || !r.sharesPixels)      -- `no_op` is documented to return a COPY of the pixels
 
 /-- the exported features the property quantifies over (those that import in this environment are measured) -/
 def exportedFeatures : List String :=
